@@ -234,6 +234,8 @@ class Engine:
                     raise RuntimeError("symx: replay divergence (realize vs branch)")
                 v, taken = ent
                 self.model_valid = False
+                if taken:
+                    self.path.caps.append((kind, 0, t))
             else:
                 # implied constant? boundary-biased candidates, then solver picks
                 v = None
